@@ -203,6 +203,16 @@ Definition git_is_hfs_dot (name needle : bytes) : bool :=
   | _ => false
   end.
 
+(* what the guards of the theorems need: is_hfs_dot_generic gets past its first
+   test (the first non-ignored character is '.'), and the name is well-formed
+   UTF-8 whenever it does *)
+Definition git_hfs_head (name : bytes) : bool :=
+  match next_hfs (S (List.length name)) name with
+  | (UAscii c, _) => c =? 46
+  | _ => false
+  end.
+Definition utf8_guard (name : bytes) : bool := wf_utf8 name || negb (git_hfs_head name).
+
 (* ------------------------------------------------------------------ path.c *)
 (* is_ntfs_dotgit: ".git" or "git~1", then spaces / periods up to the end, a
    directory separator (either kind) or ':' *)
